@@ -41,7 +41,7 @@ KernelFn(a, b) == a * b + a + 2 * b + 1
 ---------------------------------------------------------------------------
 RECURSIVE Denote(_)
 Denote(t) ==
-    CASE t.k \in {"Dense", "Triangular", "Sparse", "Jacobian", "Hessian"} -> t.p.m
+    CASE t.k \in {"Dense", "Triangular", "Sparse", "Jacobian", "Hessian", "Array"} -> t.p.m
       [] t.k = "Diagonal" -> MDiagOf(t.p.v)
       [] t.k = "Tridiagonal" -> MTriDiag(t.p.al, t.p.be, t.p.ga)
       [] t.k = "Identity" -> Eye(t.p.n)
@@ -85,7 +85,7 @@ ShapeOf(t) ==
         RECURSIVE SumC(_)
         SumC(i) == IF i = 0 THEN 0 ELSE S(i)[2] * (IF "mult" \in DOMAIN t.p THEN t.p.mult[i] ELSE 1) + SumC(i - 1)
     IN
-    CASE t.k \in {"Dense", "Triangular", "Sparse", "Jacobian", "Hessian"} -> <<t.p.m.r, t.p.m.c>>
+    CASE t.k \in {"Dense", "Triangular", "Sparse", "Jacobian", "Hessian", "Array"} -> <<t.p.m.r, t.p.m.c>>
       [] t.k = "Diagonal" -> <<Len(t.p.v), Len(t.p.v)>>
       [] t.k = "Tridiagonal" -> <<Len(t.p.be), Len(t.p.be)>>
       [] t.k \in {"Identity", "ScalarMul", "FFT"} -> <<t.p.n, t.p.n>>
